@@ -277,7 +277,7 @@ def r2(R):
 
 @rule('C01.R3', 'vote writes header, staged records, trailing length, then '
       'flushes; both lengths are the same value; the next position is '
-      'recorded only afterwards', min_instances=1)
+      'recorded only afterwards', props=['C05'], min_instances=1)
 def r3(R):
     cls = R.prog.cls(FS)
     f = R.method(cls, 'tpc_vote')
@@ -382,7 +382,7 @@ def r3(R):
 
 
 @rule('C01.R4', 'a failed write during vote truncates the data file back to '
-      'the committed end and re-raises', min_instances=3)
+      'the committed end and re-raises', props=['C05'], min_instances=3)
 def r4(R):
     cls = R.prog.cls(FS)
     f = R.method(cls, 'tpc_vote')
